@@ -1,6 +1,8 @@
 import LyModel.Diff.Obs13
 import LyModel.Diff.Exact13
 import LyModel.Diff.Drv
+import LyModel.Diff.MergeSafe
+import LyModel.Diff.K13CanonDefs
 /-! driver ops of component `diff13` (reverse and merge of diffs, C13): see harness/api_diff13.c for the protocol -/
 namespace LyModel.Diff.Drv13
 open LyModel LyModel.Tree LyModel.Diff.Drv
@@ -37,6 +39,14 @@ def handle (op : String) (args : List String) : String :=
       match mergeDiff { defaults := mo != "0" } S (diff S dflt A B) (diff S dflt B C) with
       | .error e => "err Merge:" ++ e.name
       | .ok M => "ok " ++ dumpTok (stripNpL S M) ++ " " ++ applyFields S (parseFixes fx) dflt A M C
+  | "hyp3", [dsl, a, b, c, _fx] =>
+    -- model only: the hypotheses of Props/C13Tree.lean merge_apply_partial_tree, evaluated on the triple:
+    -- schemaOK  wfForest(A,B,C)  canonT(A,B,C)  mergeSafe(diff(A,B), diff(B,C))
+    withSchema dsl fun S => withTree S a fun A => withTree S b fun B => withTree S c fun C =>
+      let b := fun (x : Bool) => if x then "1" else "0"
+      "ok " ++ b (K13.schemaOK S) ++ " " ++ b (wfForest S A && wfForest S B && wfForest S C) ++ " " ++
+        b (K13.canonT S A && K13.canonT S B && K13.canonT S C) ++ " " ++
+        b (mergeSafe S (diff S true A B) (diff S true B C))
   | _, _ => "err BadOp"
 
 end LyModel.Diff.Drv13
